@@ -9,6 +9,8 @@
    Apply preserves Rel L - also when it runs over a sub-index (FilteredApply) - and Rel gives back abs f = abs g. *)
 From QF Require Import Base.Prelude Model.Frame Model.Filter Model.Ops Model.TableSpec.
 From QF Require Import Proofs.OpsProofs Proofs.OpsProofs2 Proofs.NoPanicProofs.
+From QF Require Import Model.FilterSpec Proofs.FilterTypedFrame.
+From QF Require Model.Eval Proofs.EvalFullBase Proofs.EvalFull Corr.FrameCorr.
 Local Open Scope nat_scope.
 
 (* ------------------------------------------------------------------ lists of pairs *)
@@ -686,3 +688,738 @@ Section Instr.
       apply (col_apply2_sim f g c1 c2 e1 e2 (ifn i) HR Ha K1 Hs2 K2 K3 Hfn).
   Qed.
 End Instr.
+
+(* ------------------------------------------------------------------ Rel <-> the same logical table *)
+
+Lemma cols_sim_row L cs1 cs2 p q :
+  cols_sim L cs1 cs2 -> In (p, q) L ->
+  omap (fun nc : bytes * coldata => cell_at (snd nc) p) cs1 = omap (fun nc : bytes * coldata => cell_at (snd nc) q) cs2.
+Proof.
+  intros H Hpq. induction H as [|a b l l' [_ [_ Hc]] _ IH]; [reflexivity|].
+  simpl. destruct (Hc p q Hpq) as [x [H1 H2]]. rewrite H1, H2, IH. reflexivity.
+Qed.
+
+Lemma cols_sim_intro L : forall cs1 cs2,
+  map fst cs1 = map fst cs2 ->
+  map (fun nc : bytes * coldata => col_type (snd nc)) cs1 = map (fun nc : bytes * coldata => col_type (snd nc)) cs2 ->
+  (forall p q, In (p, q) L -> exists row,
+      omap (fun nc : bytes * coldata => cell_at (snd nc) p) cs1 = Ok row
+      /\ omap (fun nc : bytes * coldata => cell_at (snd nc) q) cs2 = Ok row) ->
+  cols_sim L cs1 cs2.
+Proof.
+  induction cs1 as [|[n1 c1] cs1 IH]; intros [|[n2 c2] cs2] Hn Ht Hrow; try discriminate; [constructor|].
+  simpl in Hn, Ht. inversion Hn; inversion Ht; subst. constructor.
+  - split; [reflexivity|]. split; [assumption|]. intros p q Hpq. destruct (Hrow p q Hpq) as [row [R1 R2]].
+    apply omap_cons_inv in R1 as [y [ys [Hy [_ ->]]]]. apply omap_cons_inv in R2 as [y' [ys' [Hy' [_ E]]]].
+    inversion E; subst. exists y'. split; assumption.
+  - apply IH; try assumption. intros p q Hpq. destruct (Hrow p q Hpq) as [row [R1 R2]].
+    apply omap_cons_inv in R1 as [y [ys [_ [Hys ->]]]]. apply omap_cons_inv in R2 as [y' [ys' [_ [Hys' E]]]].
+    inversion E; subst. exists ys'. split; assumption.
+Qed.
+
+Theorem rel_of_abs f g t :
+  abs f = Ok t -> abs g = Ok t -> ferr f = ferr g -> wf_frame f = true -> wf_frame g = true ->
+  Rel (combine (ix f) (ix g)) f g /\ length (ix f) = length (ix g).
+Proof.
+  intros Hf Hg He Hw1 Hw2. apply wf_frame_WF in Hw1, Hw2.
+  destruct (abs_rows f t Hf) as [R1 [N1 T1]]. destruct (abs_rows g t Hg) as [R2 [N2 T2]].
+  assert (Hlen : length (ix f) = length (ix g)).
+  { rewrite <- (omap_length _ _ _ R1), <- (omap_length _ _ _ R2). reflexivity. }
+  split; [|exact Hlen]. split; try assumption.
+  - apply cols_sim_intro; [unfold col_names in *; congruence|congruence|].
+    intros p q Hpq. apply In_combine_nth in Hpq as [k [K1 K2]].
+    destruct (omap_nth _ _ _ _ _ R1 K1) as [b [B1 B2]]. destruct (omap_nth _ _ _ _ _ R2 K2) as [b' [B1' B2']].
+    exists b. unfold row_at in B1, B1'. split; [exact B1|]. rewrite B1'. congruence.
+  - intros p q Hpq. apply In_combine_nth in Hpq as [k [K1 K2]].
+    destruct Hw1 as [_ I1]. destruct Hw2 as [_ I2]. rewrite Forall_forall in I1, I2.
+    split; [apply I1; apply (nth_error_In _ _ K1)|apply I2; apply (nth_error_In _ _ K2)].
+Qed.
+
+Theorem abs_of_rel L f g :
+  Rel L f g -> length (ix f) = length (ix g) -> incl (combine (ix f) (ix g)) L -> abs f = abs g.
+Proof.
+  intros HR Hl Hi. unfold abs.
+  assert (Hrows : omap (row_at f) (ix f) = omap (row_at g) (ix g)).
+  { apply omap_sim; [exact Hl|]. intros p q Hpq. unfold row_at. apply (cols_sim_row L). apply HR. apply Hi. exact Hpq. }
+  rewrite Hrows. unfold col_names. rewrite (cols_sim_names L _ _ (r_cols _ _ _ HR)), (cols_sim_types L _ _ (r_cols _ _ _ HR)).
+  reflexivity.
+Qed.
+
+Lemma Rel_with_ix L f g i j :
+  Rel L f g -> Forall (fun p => p < phys_len f) i -> Forall (fun q => q < phys_len g) j ->
+  Rel L (with_ix f i) (with_ix g j).
+Proof.
+  intros [H1 H2 [H3 _] [H4 _] H5] Hi Hj. split; try assumption; split; assumption.
+Qed.
+
+(* ------------------------------------------------------------------ instruction lists *)
+
+Fixpoint upper_prog_okb (ut : upper_table) (f : frame) (is : list instr) : bool :=
+  match is with
+  | [] => true
+  | i :: is' => enum_upper_okb ut f i
+                && match apply_instr ut f i with Ok g => upper_prog_okb ut g is' | _ => true end
+  end.
+
+(* the premise of the no-panic theorem of C10 implies it *)
+Lemma apply_tables_upper_prog ut : forall is f, apply_tables_okb ut f is = true -> upper_prog_okb ut f is = true.
+Proof.
+  induction is as [|i is IH]; intros f H; [reflexivity|]. cbn [apply_tables_okb upper_prog_okb] in *.
+  apply andb_true_iff in H as [H1 H2]. rewrite (instr_tables_enum_upper ut f i H1). cbn [andb].
+  destruct (apply_instr ut f i) as [g| |]; [apply IH; exact H2|reflexivity|reflexivity].
+Qed.
+
+(* a program without ToUpper needs no premise about the oracle at all *)
+Lemma no_builtin_upper_prog ut : forall is f,
+  forallb (fun i => no_builtin (ifn i)) is = true -> upper_prog_okb ut f is = true.
+Proof.
+  induction is as [|i is IH]; intros f H; [reflexivity|]. cbn [forallb upper_prog_okb] in *.
+  apply andb_true_iff in H as [H1 H2]. apply andb_true_iff. split.
+  - unfold enum_upper_okb. destruct (ferr f); [reflexivity|]. destruct (empty_name (isrc1 i)); [reflexivity|].
+    destruct (empty_name (isrc2 i)); [|reflexivity]. destruct (lookup_col f (isrc1 i)) as [[]|]; try reflexivity.
+    destruct (ifn i); try reflexivity. discriminate.
+  - destruct (apply_instr ut f i); [apply IH; exact H2|reflexivity|reflexivity].
+Qed.
+
+Theorem apply_sim ut L : one2one L -> forall is f g,
+  Rel L f g -> act L (ix f) (ix g) -> forallb (fun i => afn_wf (ifn i)) is = true ->
+  upper_prog_okb ut f is = true -> upper_prog_okb ut g is = true ->
+  sim_out L f g (apply ut f is) (apply ut g is).
+Proof.
+  intros H121. induction is as [|i is IH]; intros f g HR Ha Hfn Hu1 Hu2.
+  - apply sim_out_self. exact HR.
+  - cbn [forallb upper_prog_okb] in *. apply andb_true_iff in Hfn as [Hfn Hfns].
+    apply andb_true_iff in Hu1 as [Hu1 Hu1s]. apply andb_true_iff in Hu2 as [Hu2 Hu2s].
+    pose proof (apply_instr_sim ut L H121 f g i HR Ha Hfn Hu1 Hu2) as Hi.
+    rewrite !apply_cons. unfold sim_out in Hi.
+    destruct (apply_instr ut f i) as [f1| |], (apply_instr ut g i) as [g1| |]; try contradiction; [|exact I].
+    destruct Hi as [HR1 [If Ig]].
+    assert (Ha1 : act L (ix f1) (ix g1)) by (rewrite If, Ig; exact Ha).
+    pose proof (IH f1 g1 HR1 Ha1 Hfns Hu1s Hu2s) as Hrest. unfold sim_out in *.
+    destruct (apply ut f1 is) as [f2| |], (apply ut g1 is) as [g2| |]; try contradiction; [|exact I].
+    destruct Hrest as [HR2 [If2 Ig2]]. split; [exact HR2|]. split; congruence.
+Qed.
+
+(* what two results have in common *)
+Definition same_result (o1 o2 : outcome frame) : Prop :=
+  match o1, o2 with
+  | Ok f', Ok g' => ferr f' = ferr g' /\ abs f' = abs g'
+  | Panic, Panic => True
+  | _, _ => False
+  end.
+
+(* a frame with Err exposes nothing but its Err (Len = -1, every view is an error): results are compared by
+   their Err state and, without Err, by their logical tables *)
+Definition same_visible (o1 o2 : outcome frame) : Prop :=
+  match o1, o2 with
+  | Ok f', Ok g' => ferr f' = ferr g' /\ (ferr f' = false -> abs f' = abs g')
+  | Panic, Panic => True
+  | _, _ => False
+  end.
+
+Lemma same_result_visible o1 o2 : same_result o1 o2 -> same_visible o1 o2.
+Proof. unfold same_result, same_visible. destruct o1, o2; tauto. Qed.
+
+Lemma act_full f g : length (ix f) = length (ix g) -> NoDup (ix f) -> NoDup (ix g) ->
+  act (combine (ix f) (ix g)) (ix f) (ix g).
+Proof. intros Hl H1 H2. split; [exact Hl|]. split; [apply incl_refl|]. split; assumption. Qed.
+
+(* C09: Apply - every instruction kind, every program - is a function of the logical table *)
+Theorem apply_congr ut f g t is :
+  abs f = Ok t -> abs g = Ok t -> ferr f = ferr g ->
+  wf_frame f = true -> wf_frame g = true -> NoDup (ix f) -> NoDup (ix g) ->
+  forallb (fun i => afn_wf (ifn i)) is = true ->
+  upper_prog_okb ut f is = true -> upper_prog_okb ut g is = true ->
+  same_result (apply ut f is) (apply ut g is).
+Proof.
+  intros Hf Hg He Hw1 Hw2 Hn1 Hn2 Hfn Hu1 Hu2.
+  destruct (rel_of_abs f g t Hf Hg He Hw1 Hw2) as [HR Hl].
+  pose proof (apply_sim ut _ (one2one_combine _ _ Hn1 Hn2) is f g HR (act_full f g Hl Hn1 Hn2) Hfn Hu1 Hu2) as H.
+  unfold sim_out, same_result in *.
+  destruct (apply ut f is) as [f'| |], (apply ut g is) as [g'| |]; try contradiction; [|exact I].
+  destruct H as [HR' [If Ig]]. split; [apply HR'|].
+  apply (abs_of_rel _ f' g' HR'); rewrite If, Ig; [exact Hl|apply incl_refl].
+Qed.
+
+(* WithRowNums *)
+Theorem with_row_nums_congr f g t name :
+  abs f = Ok t -> abs g = Ok t -> ferr f = ferr g ->
+  wf_frame f = true -> wf_frame g = true -> NoDup (ix f) -> NoDup (ix g) ->
+  same_result (with_row_nums f name) (with_row_nums g name).
+Proof.
+  intros Hf Hg He Hw1 Hw2 Hn1 Hn2. unfold with_row_nums.
+  destruct (rel_of_abs f g t Hf Hg He Hw1 Hw2) as [_ Hl]. rewrite <- Hl.
+  apply (apply_congr [] f g t _ Hf Hg He Hw1 Hw2 Hn1 Hn2).
+  - cbn [forallb ifn afn_wf ctype_eqb negb andb]. rewrite andb_true_r. apply forallb_forall.
+    intros x Hx. apply in_map_iff in Hx as [k [<- _]]. reflexivity.
+  - apply no_builtin_upper_prog. reflexivity.
+  - apply no_builtin_upper_prog. reflexivity.
+Qed.
+
+(* ------------------------------------------------------------------ FilteredApply, given what Filter returns *)
+
+(* the two filter results agree: same outcome, same Err, and without Err the kept rows are paired through L *)
+Definition filter_sim_out (L : pairs) (f g : frame) (o1 o2 : outcome frame) : Prop :=
+  match o1, o2 with
+  | Ok ff, Ok gg =>
+      ferr ff = ferr gg
+      /\ (if ferr ff then True
+          else cols ff = cols f /\ cols gg = cols g /\ act L (ix ff) (ix gg))
+  | Panic, Panic => True
+  | _, _ => False
+  end.
+
+Theorem filtered_apply_sim mt ut f g t c is :
+  abs f = Ok t -> abs g = Ok t -> ferr f = ferr g ->
+  wf_frame f = true -> wf_frame g = true -> NoDup (ix f) -> NoDup (ix g) ->
+  filter_sim_out (combine (ix f) (ix g)) f g (frame_filter mt f c) (frame_filter mt g c) ->
+  forallb (fun i => afn_wf (ifn i)) is = true ->
+  (forall ff, frame_filter mt f c = Ok ff -> upper_prog_okb ut (with_ix f (ix ff)) is = true) ->
+  (forall gg, frame_filter mt g c = Ok gg -> upper_prog_okb ut (with_ix g (ix gg)) is = true) ->
+  same_visible (filtered_apply mt ut f c is) (filtered_apply mt ut g c is).
+Proof.
+  intros Hf Hg He Hw1 Hw2 Hn1 Hn2 Hflt Hfn Hu1 Hu2.
+  destruct (rel_of_abs f g t Hf Hg He Hw1 Hw2) as [HR Hl].
+  set (L := combine (ix f) (ix g)) in *.
+  unfold filtered_apply, filter_sim_out in *.
+  destruct (frame_filter mt f c) as [ff| |], (frame_filter mt g c) as [gg| |]; try contradiction; [|exact I].
+  cbn [obind]. destruct Hflt as [Hee Hrest]. rewrite <- Hee.
+  destruct (ferr ff) eqn:Eff; [split; [congruence|intro; congruence]|].
+  destruct Hrest as [_ [_ Hact]].
+  destruct (act_in_range L _ _ _ _ Hact (r_rng _ _ _ HR)) as [I1 I2].
+  assert (HR0 : Rel L (with_ix f (ix ff)) (with_ix g (ix gg))) by (apply Rel_with_ix; assumption).
+  pose proof (apply_sim ut L (one2one_combine _ _ Hn1 Hn2) is _ _ HR0 Hact Hfn (Hu1 ff eq_refl) (Hu2 gg eq_refl)) as H.
+  pose proof (apply_post ut is (with_ix f (ix ff)) (r_wf1 _ _ _ HR0)) as P1.
+  pose proof (apply_post ut is (with_ix g (ix gg)) (r_wf2 _ _ _ HR0)) as P2.
+  unfold sim_out, same_visible in *.
+  destruct (apply ut (with_ix f (ix ff)) is) as [r1| |], (apply ut (with_ix g (ix gg)) is) as [r2| |];
+    try contradiction; [|exact I].
+  cbn [obind post] in *. destruct H as [HR' _]. destruct P1 as [_ [_ P1]]. destruct P2 as [_ [_ P2]].
+  change (phys_len (with_ix f (ix ff))) with (phys_len f) in P1. change (phys_len (with_ix g (ix gg))) with (phys_len g) in P2.
+  assert (HRf : Rel L (with_ix r1 (ix f)) (with_ix r2 (ix g))).
+  { apply Rel_with_ix; [exact HR'|rewrite P1; apply (r_wf1 _ _ _ HR)|rewrite P2; apply (r_wf2 _ _ _ HR)]. }
+  split; [apply HR'|]. intros _. apply (abs_of_rel L _ _ HRf); [exact Hl|apply incl_refl].
+Qed.
+
+(* ------------------------------------------------------------------ Filter: the row-wise specification reads a row
+   only through its cells - and through the value list and strictness of enum columns (rank order, strict
+   constants), which the logical table does not show: they are an explicit premise *)
+
+Definition enum_meta (c : coldata) : option (list bytes * bool) :=
+  match c with ECol _ vs st => Some (vs, st) | _ => None end.
+
+Definition enum_metas (f : frame) : list (option (list bytes * bool)) := map (fun nc => enum_meta (snd nc)) (cols f).
+
+Section SatSim.
+  Variable mt : matcher_table.
+  Variables f g : frame.
+  Variable L : pairs.
+  Hypothesis HR : Rel L f g.
+  Hypothesis Hmeta : enum_metas f = enum_metas g.
+  Variables p q : nat.
+  Hypothesis Hpq : In (p, q) L.
+
+  (* two columns in the same position of the two frames, seen at the paired positions p and q *)
+  Definition psim (c1 c2 : coldata) : Prop :=
+    col_type c1 = col_type c2 /\ enum_meta c1 = enum_meta c2 /\ exists x, cell_at c1 p = Ok x /\ cell_at c2 q = Ok x.
+
+  Lemma lookup_from_psim name : forall cs1 cs2 pos (acc1 acc2 : option (nat * coldata)),
+    cols_sim L cs1 cs2 -> map (fun nc => enum_meta (snd nc)) cs1 = map (fun nc => enum_meta (snd nc)) cs2 ->
+    match acc1, acc2 with None, None => True | Some (_, c1), Some (_, c2) => psim c1 c2 | _, _ => False end ->
+    match lookup_from name cs1 pos acc1, lookup_from name cs2 pos acc2 with
+    | None, None => True | Some (_, c1), Some (_, c2) => psim c1 c2 | _, _ => False end.
+  Proof.
+    induction cs1 as [|[n1 c1] cs1 IH]; intros cs2 pos acc1 acc2 H Hm Ha;
+      inversion H as [|? [n2 c2] ? cs2' [Hn [Ht Hc]] Hrest]; subst.
+    - exact Ha.
+    - cbn [fst snd] in *. subst n2. cbn [lookup_from]. simpl in Hm. inversion Hm as [[Hm1 Hm2]].
+      apply IH; [exact Hrest|exact Hm2|].
+      destruct (bytes_eqb n1 name); [|exact Ha]. split; [exact Ht|]. split; [exact Hm1|]. apply Hc. exact Hpq.
+  Qed.
+
+  Lemma lookup_psim name :
+    match lookup_col f name, lookup_col g name with
+    | None, None => True
+    | Some c1, Some c2 => psim c1 c2 /\ col_len c1 = phys_len f /\ col_len c2 = phys_len g
+    | _, _ => False
+    end.
+  Proof.
+    pose proof (lookup_from_psim name (cols f) (cols g) 0 None None (r_cols _ _ _ HR) Hmeta I) as H.
+    fold (lookup f name) in H. fold (lookup g name) in H.
+    pose proof (WF_lookup f name) as W1. pose proof (WF_lookup g name) as W2. unfold lookup_col in *.
+    destruct (lookup f name) as [[k1 c1]|], (lookup g name) as [[k2 c2]|]; cbn [option_map snd] in *;
+      try contradiction; try exact I.
+    split; [exact H|]. split; [apply (W1 c1 (r_wf1 _ _ _ HR) eq_refl)|apply (W2 c2 (r_wf2 _ _ _ HR) eq_refl)].
+  Qed.
+
+  (* raw reads *)
+  Lemma raw_i d1 d2 : psim (ICol d1) (ICol d2) -> exists z, idx d1 p = Ok z /\ idx d2 q = Ok z.
+  Proof.
+    intros [_ [_ [x [H1 H2]]]]. cbn [cell_at] in H1, H2.
+    destruct (idx d1 p) as [z1| |]; cbn [obind] in H1; try discriminate.
+    destruct (idx d2 q) as [z2| |]; cbn [obind] in H2; try discriminate.
+    exists z1. split; [reflexivity|]. congruence.
+  Qed.
+  Lemma raw_f d1 d2 : psim (FCol d1) (FCol d2) -> exists z, idx d1 p = Ok z /\ idx d2 q = Ok z.
+  Proof.
+    intros [_ [_ [x [H1 H2]]]]. cbn [cell_at] in H1, H2.
+    destruct (idx d1 p) as [z1| |]; cbn [obind] in H1; try discriminate.
+    destruct (idx d2 q) as [z2| |]; cbn [obind] in H2; try discriminate.
+    exists z1. split; [reflexivity|]. congruence.
+  Qed.
+  Lemma raw_b d1 d2 : psim (BCol d1) (BCol d2) -> exists z, idx d1 p = Ok z /\ idx d2 q = Ok z.
+  Proof.
+    intros [_ [_ [x [H1 H2]]]]. cbn [cell_at] in H1, H2.
+    destruct (idx d1 p) as [z1| |]; cbn [obind] in H1; try discriminate.
+    destruct (idx d2 q) as [z2| |]; cbn [obind] in H2; try discriminate.
+    exists z1. split; [reflexivity|]. congruence.
+  Qed.
+  Lemma raw_s d1 d2 : psim (SCol d1) (SCol d2) -> exists z, idx d1 p = Ok z /\ idx d2 q = Ok z.
+  Proof.
+    intros [_ [_ [x [H1 H2]]]]. cbn [cell_at] in H1, H2.
+    destruct (idx d1 p) as [z1| |]; cbn [obind] in H1; try discriminate.
+    destruct (idx d2 q) as [z2| |]; cbn [obind] in H2; try discriminate.
+    exists z1. split; [reflexivity|]. congruence.
+  Qed.
+  Lemma raw_e d1 v1 s1 d2 v2 s2 : psim (ECol d1 v1 s1) (ECol d2 v2 s2) ->
+    v1 = v2 /\ s1 = s2 /\ exists s, cell_at (ECol d1 v1 s1) p = Ok (CEnum s) /\ cell_at (ECol d2 v2 s2) q = Ok (CEnum s).
+  Proof.
+    intros [_ [Hm [x [H1 H2]]]]. cbn [enum_meta] in Hm. inversion Hm; subst. split; [reflexivity|]. split; [reflexivity|].
+    assert (exists s, x = CEnum s) as [s ->].
+    { cbn [cell_at] in H1. destruct (idx d1 p) as [r| |]; cbn [obind] in H1; try discriminate.
+      destruct (enum_string v2 r) as [s| |]; cbn [obind] in H1; try discriminate. exists s. congruence. }
+    exists s. split; assumption.
+  Qed.
+
+  Lemma float_slice_psim d1 d2 : psim (ICol d1) (ICol d2) -> psim (FCol (float_slice d1)) (FCol (float_slice d2)).
+  Proof.
+    intro H. destruct (raw_i d1 d2 H) as [z [Z1 Z2]]. split; [reflexivity|]. split; [reflexivity|].
+    exists (CFloat (i2f z)). unfold idx, float_slice in *. cbn [cell_at]. unfold idx. rewrite !nth_error_map.
+    destruct (nth_error d1 p); cbn [of_option] in Z1; try discriminate.
+    destruct (nth_error d2 q); cbn [of_option] in Z2; try discriminate.
+    inversion Z1; inversion Z2; subst. split; reflexivity.
+  Qed.
+
+  Lemma equal_types_sim v (d1 d1' d2 d2' : list N) v' :
+    length d1 = length d1' -> length d2 = length d2' ->
+    equal_types v (length d1) v' (length d1') = equal_types v (length d2) v' (length d2').
+  Proof. intros H1 H2. unfold equal_types. rewrite <- H1, <- H2, !Nat.eqb_refl. reflexivity. Qed.
+
+  Lemma builtin_sim c1 c2 cmp a :
+    psim c1 c2 -> col_len c1 = phys_len f -> col_len c2 = phys_len g ->
+    builtin_sat mt f c1 cmp a p = builtin_sat mt g c2 cmp a q.
+  Proof.
+    intros Hp Hl1 Hl2. pose proof Hp as [Ht _].
+    destruct c1 as [d1|d1|d1|d1|d1 v1 s1], c2 as [d2|d2|d2|d2|d2 v2 s2]; try discriminate Ht.
+    - destruct (raw_i d1 d2 Hp) as [z [Z1 Z2]]. unfold builtin_sat. cbn [cell_at]. rewrite Z1, Z2. cbn [obind].
+      destruct a; try reflexivity.
+      pose proof (lookup_psim n) as Hn. destruct (lookup_col f n) as [e1|], (lookup_col g n) as [e2|]; try contradiction; try reflexivity.
+      destruct Hn as [Hn _]. pose proof Hn as [Hte _].
+      destruct e1 as [x1|x1|x1|x1|x1 w1 t1], e2 as [x2|x2|x2|x2|x2 w2 t2]; try discriminate Hte; try reflexivity.
+      + destruct (raw_i x1 x2 Hn) as [w [W1 W2]]. rewrite W1, W2. reflexivity.
+      + destruct (raw_f x1 x2 Hn) as [w [W1 W2]]. rewrite W1, W2. reflexivity.
+    - destruct (raw_f d1 d2 Hp) as [z [Z1 Z2]]. unfold builtin_sat. cbn [cell_at]. rewrite Z1, Z2. cbn [obind].
+      destruct a; try reflexivity.
+      pose proof (lookup_psim n) as Hn. destruct (lookup_col f n) as [e1|], (lookup_col g n) as [e2|]; try contradiction; try reflexivity.
+      destruct Hn as [Hn _]. pose proof Hn as [Hte _].
+      destruct e1 as [x1|x1|x1|x1|x1 w1 t1], e2 as [x2|x2|x2|x2|x2 w2 t2]; try discriminate Hte; try reflexivity.
+      + destruct (raw_i x1 x2 Hn) as [w [W1 W2]]. rewrite W1, W2. reflexivity.
+      + destruct (raw_f x1 x2 Hn) as [w [W1 W2]]. rewrite W1, W2. reflexivity.
+    - destruct (raw_b d1 d2 Hp) as [z [Z1 Z2]]. unfold builtin_sat. cbn [cell_at]. rewrite Z1, Z2. cbn [obind].
+      destruct a; try reflexivity.
+      pose proof (lookup_psim n) as Hn. destruct (lookup_col f n) as [e1|], (lookup_col g n) as [e2|]; try contradiction; try reflexivity.
+      destruct Hn as [Hn _]. pose proof Hn as [Hte _].
+      destruct e1 as [x1|x1|x1|x1|x1 w1 t1], e2 as [x2|x2|x2|x2|x2 w2 t2]; try discriminate Hte; try reflexivity.
+      destruct (raw_b x1 x2 Hn) as [w [W1 W2]]. rewrite W1, W2. reflexivity.
+    - destruct (raw_s d1 d2 Hp) as [z [Z1 Z2]]. unfold builtin_sat. cbn [cell_at]. rewrite Z1, Z2. cbn [obind].
+      destruct (norm_strs a); try reflexivity.
+      pose proof (lookup_psim n) as Hn. destruct (lookup_col f n) as [e1|], (lookup_col g n) as [e2|]; try contradiction; try reflexivity.
+      destruct Hn as [Hn _]. pose proof Hn as [Hte _].
+      destruct e1 as [x1|x1|x1|x1|x1 w1 t1], e2 as [x2|x2|x2|x2|x2 w2 t2]; try discriminate Hte; try reflexivity.
+      destruct (raw_s x1 x2 Hn) as [w [W1 W2]]. rewrite W1, W2. reflexivity.
+    - destruct (raw_e _ _ _ _ _ _ Hp) as [-> [-> [s [Z1 Z2]]]]. unfold builtin_sat. rewrite Z1, Z2. cbn [obind].
+      destruct (norm_strs a); try reflexivity.
+      pose proof (lookup_psim n) as Hn. destruct (lookup_col f n) as [e1|], (lookup_col g n) as [e2|]; try contradiction; try reflexivity.
+      destruct Hn as [Hn [Hle1 Hle2]]. pose proof Hn as [Hte _].
+      destruct e1 as [x1|x1|x1|x1|x1 w1 t1], e2 as [x2|x2|x2|x2|x2 w2 t2]; try discriminate Hte; try reflexivity.
+      destruct (raw_e _ _ _ _ _ _ Hn) as [-> [-> [w [W1 W2]]]].
+      change (cell_at (ECol x1 w2 false) p) with (cell_at (ECol x1 w2 t2) p).
+      change (cell_at (ECol x2 w2 false) q) with (cell_at (ECol x2 w2 t2) q).
+      rewrite W1, W2. cbn [obind]. cbn [col_len] in *.
+      rewrite (equal_types_sim v2 d1 x1 d2 x2 w2) by congruence. reflexivity.
+  Qed.
+
+  Lemma psim_cell c1 c2 : psim c1 c2 -> cell_at c1 p = cell_at c2 q.
+  Proof. intros [_ [_ [x [H1 H2]]]]. congruence. Qed.
+  Lemma psim_fn_type c1 c2 t : psim c1 c2 -> fn_type_ok c1 t = fn_type_ok c2 t.
+  Proof. intros [Ht _]. unfold fn_type_ok, col_ftype. rewrite Ht. reflexivity. Qed.
+
+  (* the int column promoted to float when the other operand is a float column *)
+  Lemma promote_psim c1 c2 e1 e2 : psim c1 c2 -> psim e1 e2 ->
+    psim (match c1, e1 with ICol d, FCol _ => FCol (float_slice d) | _, _ => c1 end)
+         (match c2, e2 with ICol d, FCol _ => FCol (float_slice d) | _, _ => c2 end).
+  Proof.
+    intros Hc He. pose proof Hc as [Ht _]. pose proof He as [Hte _].
+    destruct c1, c2; try discriminate Ht; try exact Hc;
+      destruct e1, e2; try discriminate Hte; try exact Hc.
+    apply float_slice_psim. exact Hc.
+  Qed.
+
+  Lemma leaf_sim l : leaf_sat mt f l p = leaf_sat mt g l q.
+  Proof.
+    unfold leaf_sat. pose proof (lookup_psim (lcol l)) as Hl.
+    destruct (lookup_col f (lcol l)) as [c1|], (lookup_col g (lcol l)) as [c2|]; try contradiction; [|reflexivity].
+    destruct Hl as [Hp [Hl1 Hl2]].
+    match goal with |- obind ?a _ = obind ?b _ => assert (a = b) as ->; [|reflexivity] end.
+    destruct (lcmp l) as [s|t tbl|t tbl|].
+    - destruct (larg l) eqn:Ea; try (apply builtin_sim; assumption).
+      pose proof (lookup_psim n) as Hn.
+      destruct (lookup_col f n) as [e1|], (lookup_col g n) as [e2|]; try contradiction; [|reflexivity].
+      apply builtin_sim; assumption.
+    - destruct (larg l) eqn:Ea;
+        try (rewrite (psim_fn_type c1 c2 t Hp), (psim_cell c1 c2 Hp); reflexivity).
+      pose proof (lookup_psim n) as Hn.
+      destruct (lookup_col f n) as [e1|], (lookup_col g n) as [e2|]; try contradiction; [|reflexivity].
+      destruct Hn as [Hn _]. pose proof (promote_psim c1 c2 e1 e2 Hp Hn) as Hp'. cbv zeta.
+      rewrite (psim_fn_type _ _ t Hp'), (psim_cell _ _ Hp'). reflexivity.
+    - destruct (larg l) eqn:Ea; try reflexivity.
+      pose proof (lookup_psim n) as Hn.
+      destruct (lookup_col f n) as [e1|], (lookup_col g n) as [e2|]; try contradiction; [|reflexivity].
+      destruct Hn as [Hn _].
+      pose proof (promote_psim c1 c2 e1 e2 Hp Hn) as Hp1. pose proof (promote_psim e1 e2 c1 c2 Hn Hp) as Hp2.
+      assert (Hpair : forall (A : Type) (K : coldata -> coldata -> A),
+                 (let '(c', c2') := match c1, e1 with
+                                    | ICol d, FCol _ => (FCol (float_slice d), e1)
+                                    | FCol _, ICol d2 => (c1, FCol (float_slice d2))
+                                    | _, _ => (c1, e1) end in K c' c2')
+                 = K (match c1, e1 with ICol d, FCol _ => FCol (float_slice d) | _, _ => c1 end)
+                     (match e1, c1 with ICol d, FCol _ => FCol (float_slice d) | _, _ => e1 end)).
+      { intros A K. destruct c1, e1; reflexivity. }
+      assert (Hpair2 : forall (A : Type) (K : coldata -> coldata -> A),
+                 (let '(c', c2') := match c2, e2 with
+                                    | ICol d, FCol _ => (FCol (float_slice d), e2)
+                                    | FCol _, ICol d2 => (c2, FCol (float_slice d2))
+                                    | _, _ => (c2, e2) end in K c' c2')
+                 = K (match c2, e2 with ICol d, FCol _ => FCol (float_slice d) | _, _ => c2 end)
+                     (match e2, c2 with ICol d, FCol _ => FCol (float_slice d) | _, _ => e2 end)).
+      { intros A K. destruct c2, e2; reflexivity. }
+      rewrite (Hpair _ (fun c' c2' => if fn_type_ok c' t && ctype_eqb (col_type c') (col_type c2')
+                                      then do x <- cell_at c' p; do y <- cell_at c2' p;
+                                           Ok match find (fun e => cell_key_eqb (fst (fst e)) x && cell_key_eqb (snd (fst e)) y) tbl with
+                                              | Some e => det (snd e) | None => open_ end
+                                      else Ok invalid)).
+      rewrite (Hpair2 _ (fun c' c2' => if fn_type_ok c' t && ctype_eqb (col_type c') (col_type c2')
+                                       then do x <- cell_at c' q; do y <- cell_at c2' q;
+                                            Ok match find (fun e => cell_key_eqb (fst (fst e)) x && cell_key_eqb (snd (fst e)) y) tbl with
+                                               | Some e => det (snd e) | None => open_ end
+                                       else Ok invalid)).
+      rewrite (psim_fn_type _ _ t Hp1), (psim_cell _ _ Hp1), (psim_cell _ _ Hp2).
+      destruct Hp1 as [T1 _]. destruct Hp2 as [T2 _]. rewrite T1, T2. reflexivity.
+    - reflexivity.
+  Qed.
+
+  Lemma clause_sim c : clause_sat mt f c p = clause_sat mt g c q.
+  Proof.
+    induction c as [l| |c IH|cs IH|cs IH] using clause_ind2.
+    - apply leaf_sim.
+    - reflexivity.
+    - cbn [clause_sat]. rewrite IH. reflexivity.
+    - rewrite !clause_sat_and. destruct cs as [|c0 cs]; [reflexivity|].
+      induction IH as [|c cs' Hc _ IHl]; [reflexivity|]. cbn [and_go]. rewrite Hc, IHl. reflexivity.
+    - rewrite !clause_sat_or. destruct cs as [|c0 cs]; [reflexivity|].
+      induction IH as [|c cs' Hc _ IHl]; [reflexivity|]. cbn [or_go]. rewrite Hc, IHl. reflexivity.
+  Qed.
+End SatSim.
+
+(* ------------------------------------------------------------------ QFrame.Filter *)
+
+Definition same_verdict (v1 v2 : filter_verdict) : Prop :=
+  match v1, v2 with
+  | VRows _, VRows _ | VError, VError | VOpen, VOpen | VFault, VFault => True
+  | _, _ => False
+  end.
+
+Lemma spec_go_sim mt f g c : forall i1 i2 acc1 acc2 opened,
+  length i1 = length i2 -> (forall p q, In (p, q) (combine i1 i2) -> clause_sat mt f c p = clause_sat mt g c q) ->
+  same_verdict (spec_go mt f c i1 acc1 opened) (spec_go mt g c i2 acc2 opened).
+Proof.
+  induction i1 as [|p i1 IH]; intros [|q i2] acc1 acc2 opened Hl H; try discriminate.
+  - cbn [spec_go]. destruct opened; exact I.
+  - cbn [spec_go]. rewrite <- (H p q (or_introl eq_refl)).
+    assert (Hl' : length i1 = length i2) by (simpl in Hl; lia).
+    assert (H' : forall p0 q0, In (p0, q0) (combine i1 i2) -> clause_sat mt f c p0 = clause_sat mt g c q0)
+      by (intros; apply H; right; assumption).
+    destruct (clause_sat mt f c p) as [[[[|]|]|]| |]; try exact I; apply IH; assumption.
+Qed.
+
+Lemma c02_premises_parts mt f c : c02_premises_b mt f c = true ->
+  wf_frame f = true /\ ferr f = false /\ NoDup (ix f).
+Proof.
+  unfold c02_premises_b. intro H.
+  apply andb_true_iff in H as [H _]. apply andb_true_iff in H as [H _].
+  apply andb_true_iff in H as [H Hnd]. apply andb_true_iff in H as [H Hne]. apply andb_true_iff in H as [Hw _].
+  split; [exact Hw|]. split; [apply negb_true_iff; exact Hne|].
+  apply (FilterTypedFrame.nodupb_ok Nat.eqb Nat.eqb_eq). exact Hnd.
+Qed.
+
+(* C09 for Filter.  Premises: those of the C02 theorem for BOTH frames (c02_premises_b: well formed, no Err,
+   pairwise different enum values, duplicate-free index, the specification answers on every row of the frame for
+   every leaf, no "not in"), at least one row, and - beyond the same logical table - the same enum value lists
+   and strictness, column by column (enum_metas).  The conclusion also says where the kept rows are (paired
+   through the two indexes), which is what FilteredApply needs. *)
+Theorem filter_congr mt f g t c :
+  abs f = Ok t -> abs g = Ok t ->
+  c02_premises_b mt f c = true -> c02_premises_b mt g c = true -> trows t <> [] ->
+  enum_metas f = enum_metas g ->
+  filter_sim_out (combine (ix f) (ix g)) f g (frame_filter mt f c) (frame_filter mt g c)
+  /\ same_visible (frame_filter mt f c) (frame_filter mt g c).
+Proof.
+  intros Hf Hg P1 P2 Hne Hm.
+  destruct (c02_premises_parts mt f c P1) as [Hw1 [He1 Hn1]]. destruct (c02_premises_parts mt g c P2) as [Hw2 [He2 Hn2]].
+  destruct (rel_of_abs f g t Hf Hg ltac:(congruence) Hw1 Hw2) as [HR Hl].
+  set (L := combine (ix f) (ix g)) in *.
+  assert (Hne1 : ix f <> []).
+  { intro E. apply Hne. pose proof (abs_length f t Hf) as H. rewrite E in H. destruct (trows t); [reflexivity|discriminate]. }
+  assert (Hne2 : ix g <> []) by (intro E; rewrite E in Hl; destruct (ix f); [congruence|discriminate]).
+  assert (Hsat : forall p q, In (p, q) L -> clause_sat mt f c p = clause_sat mt g c q).
+  { intros p q Hpq. apply (clause_sim mt f g L HR Hm p q Hpq). }
+  pose proof (filter_meets_spec mt f c P1 Hne1) as M1. pose proof (filter_meets_spec mt g c P2 Hne2) as M2.
+  pose proof (spec_go_sim mt f g c (ix f) (ix g) [] [] false Hl Hsat) as Hv.
+  rewrite <- !filter_spec_go in Hv. unfold same_verdict in Hv.
+  destruct (filter_spec mt f c) as [r1| | |], (filter_spec mt g c) as [r2| | |]; try contradiction.
+  - destruct M1 as [F1 R1]. destruct M2 as [F2 R2]. rewrite F1, F2.
+    destruct (combine_filter_incl (fun p => sat_true (clause_sat mt f c p)) (fun q => sat_true (clause_sat mt g c q))
+                (ix f) (ix g) Hl ltac:(intros p q Hpq; cbv beta; rewrite (Hsat p q Hpq); reflexivity)) as [Hi Hlen].
+    rewrite <- R1, <- R2 in Hi, Hlen.
+    assert (Hact : act L r1 r2).
+    { split; [exact Hlen|]. split; [exact Hi|]. subst r1 r2. split; apply NoDup_filter; assumption. }
+    unfold filter_sim_out, same_visible. cbn [ferr with_ix ix cols]. rewrite He1, He2.
+    split; [split; [reflexivity|split; [reflexivity|split; [reflexivity|exact Hact]]]|].
+    split; [reflexivity|]. intros _.
+    destruct (act_in_range L r1 r2 _ _ Hact (r_rng _ _ _ HR)) as [I1 I2].
+    apply (abs_of_rel L _ _ (Rel_with_ix L f g r1 r2 HR I1 I2)); [exact Hlen|exact Hi].
+  - destruct M1 as [g1 [F1 E1]]. destruct M2 as [g2 [F2 E2]]. rewrite F1, F2.
+    unfold filter_sim_out, same_visible. rewrite E1, E2. split; [split; [reflexivity|exact I]|].
+    split; [reflexivity|discriminate].
+Qed.
+
+(* FilteredApply *)
+Theorem filtered_apply_congr mt ut f g t c is :
+  abs f = Ok t -> abs g = Ok t ->
+  c02_premises_b mt f c = true -> c02_premises_b mt g c = true -> trows t <> [] ->
+  enum_metas f = enum_metas g ->
+  forallb (fun i => afn_wf (ifn i)) is = true ->
+  (forall ff, frame_filter mt f c = Ok ff -> upper_prog_okb ut (with_ix f (ix ff)) is = true) ->
+  (forall gg, frame_filter mt g c = Ok gg -> upper_prog_okb ut (with_ix g (ix gg)) is = true) ->
+  same_visible (filtered_apply mt ut f c is) (filtered_apply mt ut g c is).
+Proof.
+  intros Hf Hg P1 P2 Hne Hm Hfn Hu1 Hu2.
+  destruct (c02_premises_parts mt f c P1) as [Hw1 [He1 Hn1]]. destruct (c02_premises_parts mt g c P2) as [Hw2 [He2 Hn2]].
+  destruct (filter_congr mt f g t c Hf Hg P1 P2 Hne Hm) as [Hflt _].
+  apply (filtered_apply_sim mt ut f g t c is Hf Hg ltac:(congruence) Hw1 Hw2 Hn1 Hn2 Hflt Hfn Hu1 Hu2).
+Qed.
+
+(* ------------------------------------------------------------------ QFrame.Eval, from the C07 theorem *)
+
+Section EvalCongr.
+  Import QF.Model.Eval QF.Proofs.EvalFullBase QF.Corr.FrameCorr.
+
+  Lemma contains_names f g m : col_names f = col_names g -> contains f m = contains g m.
+  Proof.
+    intro H. destruct (contains f m) eqn:E1, (contains g m) eqn:E2; try reflexivity.
+    - apply contains_In in E1. rewrite H in E1. apply contains_In in E1. congruence.
+    - apply contains_In in E2. rewrite <- H in E2. apply contains_In in E2. congruence.
+  Qed.
+
+  Theorem eval_congr ut cx f g t dst e :
+    abs f = Ok t -> abs g = Ok t -> ferr f = ferr g -> wf_frame f = true -> wf_frame g = true ->
+    EvalFull.ctx_ok cx = true -> EvalFull.names_ok f = true -> EvalFull.expr_ok f e = true ->
+    (N.of_nat (length (cols f) + EvalFull.temps_needed e) <= 10000)%N -> EvalFull.has_open cx t e = false ->
+    same_visible (eval ut cx f dst e) (eval ut cx g dst e).
+  Proof.
+    intros Hf Hg He Hw1 Hw2 Hcx Hn Hok Hb Hop.
+    destruct (ferr f) eqn:Ef.
+    { unfold eval. rewrite Ef, <- He. split; [congruence|intro; congruence]. }
+    symmetry in He.
+    destruct (abs_rows f t Hf) as [_ [N1 _]]. destruct (abs_rows g t Hg) as [_ [N2 _]].
+    assert (Hnames : col_names f = col_names g) by congruence.
+    assert (Hn2 : EvalFull.names_ok g = true) by (unfold EvalFull.names_ok in *; rewrite <- Hnames; exact Hn).
+    assert (Hok2 : EvalFull.expr_ok g e = true).
+    { unfold EvalFull.expr_ok in *. apply andb_true_iff in Hok as [H1 H2]. rewrite H2, andb_true_r.
+      rewrite forallb_forall in *. intros m Hm. specialize (H1 m Hm). unfold EvalFull.hyg in *.
+      rewrite <- (contains_names f g m Hnames). exact H1. }
+    assert (Hb2 : (N.of_nat (length (cols g) + EvalFull.temps_needed e) <= 10000)%N).
+    { replace (length (cols g)) with (length (cols f)); [exact Hb|].
+      unfold col_names in Hnames. rewrite <- (map_length fst (cols f)), <- (map_length fst (cols g)), Hnames. reflexivity. }
+    pose proof (EvalFull.eval_full ut cx f dst e t Hcx Hw1 Ef Hn Hok Hb Hf) as M1.
+    pose proof (EvalFull.eval_full ut cx g dst e t Hcx Hw2 He Hn2 Hok2 Hb2 Hg) as M2.
+    unfold EvalFull.eval_meets in *.
+    destruct (denote cx t e) as [[[ty cs]|]|].
+    - destruct M1 as [f' [F1 R1]]. destruct M2 as [g' [F2 R2]]. rewrite F1, F2. unfold same_visible.
+      destruct (EvalFull.is_col_ref e dst).
+      + subst f' g'. split; [congruence|intros _; congruence].
+      + destruct (check_name dst).
+        * destruct R1 as [A1 [_ [_ A2]]]. destruct R2 as [B1 [_ [_ B2]]]. split; [congruence|intros _; congruence].
+        * split; [congruence|intro; congruence].
+    - rewrite M1, M2. exact I.
+    - destruct M1 as [[M1 _]|[f' [F1 R1]]]; [congruence|]. destruct M2 as [[M2 _]|[g' [F2 R2]]]; [congruence|].
+      rewrite F1, F2. split; [congruence|intro; congruence].
+  Qed.
+End EvalCongr.
+
+(* ------------------------------------------------------------------ C06: the built in ToUpper on the logical table *)
+
+Lemma omap_ok_in {A B} (g : A -> outcome B) l r a : omap g l = Ok r -> In a l -> exists b, g a = Ok b.
+Proof.
+  intros H Ha. apply In_nth_error in Ha as [k Hk]. destruct (omap_nth _ _ _ _ _ H Hk) as [b [Hb _]]. exists b. exact Hb.
+Qed.
+
+(* the column a ToUpper instruction builds, read through the row index: upcell of the source cells *)
+Lemma col_upper_cells ut c index n cells :
+  col_ok n c -> (col_type c = TString \/ col_type c = TEnum) -> NoDup index -> Forall (fun p => p < n) index ->
+  fn1_tables_okb ut c (FBuiltin name_ToUpper) index = true ->
+  omap (cell_at c) index = Ok cells ->
+  exists r vals, col_apply1 ut c (FBuiltin name_ToUpper) index = Ok r /\ col_ok n r /\ col_type r = col_type c
+    /\ omap (upcell ut) cells = Ok vals /\ omap (cell_at r) index = Ok vals.
+Proof.
+  intros Hok Hty Hnd Hin Htab Hcells. unfold fn1_tables_okb in Htab. rewrite bytes_eqb_refl in Htab.
+  destruct c as [d|d|d|d|d vs st]; try (destruct Hty; discriminate).
+  - (* string column *)
+    cbn [col_apply1]. destruct (assocb name_ToUpper GenTables.t_s_apply) as [nm0|] eqn:Eas; [|vm_compute in Eas; discriminate].
+    rewrite bytes_eqb_refl. destruct Hok as [Hl _]. cbn [col_len] in Hl.
+    unfold s_to_upper.
+    set (g1 := fun p => do s <- idx d p; match s with None => Ok (CStr None) | Some b => do u <- upper_of ut b; Ok (CStr (Some u)) end).
+    assert (Hg1 : omap g1 index = omap (upcell ut) cells).
+    { rewrite <- (omap_compose (cell_at (SCol d)) (upcell ut) index cells Hcells).
+      apply omap_ext_local. intros p _. unfold g1. cbn [cell_at]. destruct (idx d p) as [[s|]| |]; reflexivity. }
+    destruct d as [|s0 d'].
+    + (* no physical rows: the source itself *)
+      assert (index = []) by (destruct index as [|p r]; [reflexivity|inversion Hin; subst; simpl in *; lia]). subst index.
+      inversion Hcells; subst cells. exists (SCol []), []. repeat split; reflexivity || assumption.
+    + set (dd := s0 :: d') in *.
+      destruct (post_total _ _ _ (s_to_upper_post ut dd index n (conj Hl eq_refl) Hin) Htab) as [r [Hr Hrok]].
+      unfold s_to_upper in Hr. fold g1 in Hr. change (match dd with [] => Ok (SCol dd) | _ :: _ => ?x end) with x in Hr.
+      fold g1. destruct (omap g1 index) as [vals| |] eqn:Ev; cbn [obind] in Hr |- *; try discriminate.
+      assert (Hm : map (fun _ : option bytes => CStr (Some [])) dd = repeat (CStr (Some [])) n)
+        by (rewrite <- Hl; clear; induction dd; simpl; congruence).
+      rewrite Hm in Hr |- *.
+      assert (Hvty : Forall (fun y => cell_type_ok TString y = true) vals).
+      { apply (omap_Forall _ _ _ _ Ev). intros p b _ Hb. unfold g1 in Hb.
+        destruct (idx dd p) as [[s|]| |]; cbn [obind] in Hb; try discriminate.
+        - destruct (upper_of ut s); cbn [obind] in Hb; try discriminate. inversion Hb. reflexivity.
+        - inversion Hb. reflexivity. }
+      assert (Hvl : length index <= length vals) by (rewrite (omap_length _ _ _ Ev); lia).
+      destruct (scatter_col_gen TString (CStr (Some [])) n index vals ltac:(discriminate) eq_refl Hnd Hin Hvl Hvty)
+        as [arr [r' [Ha [Hc [Ht [Hlr [Hv _]]]]]]].
+      rewrite Ha in Hr |- *. cbn [obind] in Hr |- *. rewrite Hc in Hr |- *. inversion Hr; subst r'.
+      exists r, vals. split; [reflexivity|]. split; [exact Hrok|]. split; [exact Ht|]. split; [symmetry; exact Hg1|].
+      rewrite Hv. rewrite firstn_all2; [reflexivity|]. rewrite (omap_length _ _ _ Ev). lia.
+  - (* enum column *)
+    cbn [col_apply1]. destruct (assocb name_ToUpper GenTables.t_e_apply) as [nm0|] eqn:Eas; [|vm_compute in Eas; discriminate].
+    rewrite bytes_eqb_refl.
+    destruct (e_upper_spec ut d vs st n Hok Htab) as [r0 [E0 [T0 [K0 C0]]]].
+    assert (Hr0 : omap (cell_at r0) index = omap (upcell ut) cells).
+    { rewrite <- (omap_compose (cell_at (ECol d vs st)) (upcell ut) index cells Hcells).
+      apply omap_ext_local. intros p Hp. destruct (omap_ok_in _ _ _ p Hcells Hp) as [x Hx].
+      destruct (C0 p x Hx) as [y [Y1 Y2]]. rewrite Hx, Y2. cbn [obind]. symmetry. exact Y1. }
+    destruct (omap_total (cell_at r0) index) as [vals Hvals].
+    { intros p Hp. destruct K0 as [Kl Kw]. apply cell_at_total; [exact Kw|]. rewrite Kl. rewrite Forall_forall in Hin. apply Hin. exact Hp. }
+    exists r0, vals. split; [exact E0|]. split; [exact K0|]. split; [exact T0|]. split; [rewrite <- Hr0; exact Hvals|exact Hvals].
+Qed.
+
+(* Apply(Instruction{Fn: "ToUpper", DstCol: dst, SrcCol1: src}) on the logical table:
+   string and enum source columns: dst (replaced in position / appended last, the type of the source) holds
+   upcell of the source cell of the same row - the upper-cased string (oracle table ut), null stays null - and
+   nothing else changes; a source column of another type is an error.  Premises: a well-formed frame with a
+   duplicate-free index, a legal destination name, and the oracle table answers (for a string column on the strings
+   of the frame's rows; for an enum column on EVERY entry of its value list, as the implementation upper-cases
+   the whole list). *)
+Theorem apply1_builtin_toupper_spec ut f t dst src ty cells :
+  abs f = Ok t -> ferr f = false -> wf_frame f = true -> NoDup (ix f) -> check_name dst = true ->
+  tcolumn t src = Some (ty, cells) ->
+  (forall c, lookup_col f src = Some c -> fn1_tables_okb ut c (FBuiltin name_ToUpper) (ix f) = true) ->
+  match ty with
+  | TString | TEnum =>
+      exists vals g, omap (upcell ut) cells = Ok vals /\ apply1 ut f (FBuiltin name_ToUpper) dst src = Ok g
+                     /\ ferr g = false /\ ix g = ix f /\ wf_frame g = true
+                     /\ abs g = Ok (tset_col t dst ty vals)
+  | _ => apply1 ut f (FBuiltin name_ToUpper) dst src = Ok (with_err f)
+  end.
+Proof.
+  intros Ht Hf Hwf Hnd Hn Hcol Htab.
+  destruct (lookup f src) as [[k c]|] eqn:El; [|rewrite (abs_tcolumn_none f t src Ht El) in Hcol; discriminate].
+  destruct (abs_tcolumn_some f t src k c Ht El) as [cells' [Hc' Hcells]]. rewrite Hc' in Hcol. inversion Hcol; subst ty cells'.
+  pose proof (lookup_col_of f src k c El) as Hlc. specialize (Htab c Hlc).
+  pose proof Hwf as Hwf'. apply wf_frame_WF in Hwf'.
+  pose proof (WF_lookup f src c Hwf' Hlc) as Hok.
+  unfold apply1. rewrite Hf, Hlc.
+  assert (Hgo : col_type c = TString \/ col_type c = TEnum ->
+          exists vals g, omap (upcell ut) cells = Ok vals
+            /\ match col_apply1 ut c (FBuiltin name_ToUpper) (ix f) with
+               | Ok r => Ok (set_column f dst r) | Fail => Ok (with_err f) | Panic => Panic end = Ok g
+            /\ ferr g = false /\ ix g = ix f /\ wf_frame g = true /\ abs g = Ok (tset_col t dst (col_type c) vals)).
+  { intro Hty. destruct (col_upper_cells ut c (ix f) (phys_len f) cells Hok Hty Hnd (proj2 Hwf') Htab Hcells)
+      as [r [vals [Hr [Hrok [Hrt [Hv Hrv]]]]]].
+    exists vals, (set_column f dst r). rewrite Hr. split; [exact Hv|]. split; [reflexivity|].
+    destruct (set_column_spec f dst r Hn) as [H1 [H2 _]].
+    split; [rewrite H2; exact Hf|]. split; [exact H1|].
+    split; [apply wf_frame_WF; apply (set_column_kept f dst r Hwf' Hrok)|].
+    rewrite <- Hrt. apply abs_set_column; assumption. }
+  destruct c as [d|d|d|d|d vs st]; cbn [col_type] in *; try reflexivity; apply Hgo; auto.
+Qed.
+
+(* when the oracle table is faithful to a function up (e.g. Model/Match.v upper_spec, which C18 proves the
+   model of qfstrings.ToUpper computes), upcell is "apply up to the string, keep null" *)
+Lemma upcell_faithful (up : bytes -> bytes) ut x y :
+  (forall s u, assocb s ut = Some u -> u = up s) -> upcell ut x = Ok y ->
+  y = match x with
+      | CStr (Some s) => CStr (Some (up s)) | CEnum (Some s) => CEnum (Some (up s)) | other => other
+      end.
+Proof.
+  intros Hfaith H. destruct x as [z|b|b|[s|]|[s|]]; cbn [upcell] in H; try discriminate; try (inversion H; reflexivity);
+    unfold upper_of in H; destruct (assocb s ut) as [u|] eqn:E; cbn [obind] in H; try discriminate;
+    inversion H; rewrite (Hfaith s u E); reflexivity.
+Qed.
+
+(* ------------------------------------------------------------------ the summary statement *)
+
+(* Every deterministic operation of Model/Ops.v, Model/Filter.v and Model/Eval.v maps two well-formed frames with
+   the same logical table and Err state (duplicate-free indexes) to the same outcome: both panic, or both return
+   frames with the same Err state and - without Err - the same logical table.  For Apply and WithRowNums the
+   tables agree even when Err is set.  The premises beyond "same table" are exactly the places where the
+   implementation consults data the table does not show:
+     - ToUpper on an enum column upper-cases the whole value list (upper_prog_okb: the oracle table answers there);
+     - Filter compares enum cells by rank and rejects unknown constants for strict enums (enum_metas: same value
+       lists and strictness), and its row-wise characterisation needs at least one row and the C02 premises;
+     - Eval: the premises of the C07 theorem, and no open sub-tree. *)
+Definition congruence_statement2 : Prop :=
+  forall f g t,
+    wf_frame f = true -> wf_frame g = true -> NoDup (ix f) -> NoDup (ix g) ->
+    abs f = Ok t -> abs g = Ok t -> ferr f = ferr g ->
+    (forall ut is, forallb (fun i => afn_wf (ifn i)) is = true ->
+                   upper_prog_okb ut f is = true -> upper_prog_okb ut g is = true ->
+                   same_result (apply ut f is) (apply ut g is))
+    /\ (forall name, same_result (with_row_nums f name) (with_row_nums g name))
+    /\ (forall mt c, c02_premises_b mt f c = true -> c02_premises_b mt g c = true -> trows t <> [] ->
+                     enum_metas f = enum_metas g ->
+                     same_visible (frame_filter mt f c) (frame_filter mt g c))
+    /\ (forall mt ut c is,
+          c02_premises_b mt f c = true -> c02_premises_b mt g c = true -> trows t <> [] ->
+          enum_metas f = enum_metas g -> forallb (fun i => afn_wf (ifn i)) is = true ->
+          (forall ff, frame_filter mt f c = Ok ff -> upper_prog_okb ut (with_ix f (ix ff)) is = true) ->
+          (forall gg, frame_filter mt g c = Ok gg -> upper_prog_okb ut (with_ix g (ix gg)) is = true) ->
+          same_visible (filtered_apply mt ut f c is) (filtered_apply mt ut g c is))
+    /\ (forall ut cx dst e,
+          EvalFull.ctx_ok cx = true -> EvalFull.names_ok f = true -> EvalFull.expr_ok f e = true ->
+          (N.of_nat (length (cols f) + EvalFull.temps_needed e) <= 10000)%N -> EvalFull.has_open cx t e = false ->
+          same_visible (Eval.eval ut cx f dst e) (Eval.eval ut cx g dst e)).
+
+Theorem congruence2 : congruence_statement2.
+Proof.
+  intros f g t Hw1 Hw2 Hn1 Hn2 Hf Hg He. repeat split.
+  - intros ut is Hfn Hu1 Hu2. apply (apply_congr ut f g t is); assumption.
+  - intro name. apply (with_row_nums_congr f g t name); assumption.
+  - intros mt c P1 P2 Hne Hm. apply (filter_congr mt f g t c); assumption.
+  - intros mt ut c is P1 P2 Hne Hm Hfn Hu1 Hu2. apply (filtered_apply_congr mt ut f g t c is); assumption.
+  - intros ut cx dst e Hcx Hnm Hok Hb Hop. apply (eval_congr ut cx f g t dst e); assumption.
+Qed.
